@@ -224,10 +224,15 @@ def run_batch(batch):
             res.count("late_0rtt_cases")
         am = monitors.AckMonitor(check_timeliness=True)
         multi = {"n": 0}
-        sim, ok = run_case(sc, [am], res, {"gen": "acks", "seeds": [seed]},
-                           counters=("ack_frames_checked", "acked_numbers_checked", "timeliness_obligations", "timeliness_met", "next_tx_obligations", "exempt", "exempt_not_opened", "opened_and_owed", "path_changes", "exempt_path_switched"),
+        # (a packet the endpoint never opened owes no acknowledgement — so "was it opened at all" needs an oracle of its own:
+        # a 1-RTT packet travelling behind a long-header packet of the same datagram must be)
+        po = monitors.PeerOpensMonitor()
+        sim, ok = run_case(sc, [am, po], res, {"gen": "acks", "seeds": [seed]},
+                           counters=("ack_frames_checked", "acked_numbers_checked", "timeliness_obligations", "timeliness_met", "next_tx_obligations", "exempt", "exempt_not_opened", "opened_and_owed", "path_changes", "exempt_path_switched", "owed_on_unvalidated_path_with_budget"),
                            nontrivial=lambda s: am.timeliness_met > 0 and am.ack_frames_checked > 5, sig_extra=(sc["mode"],))
         res.maxc("max_ranges_in_one_ack_frame", am.max_ranges)
+        for k, v in po.checked.items():
+            res.count("must_open_checked_" + k, v)
         if sc["mode"] in ("many-ranges", "many-ranges-burst"):
             res.count("many_ranges_cases")
             res.count("many_ranges_cases_reaching_32_ranges", 1 if am.max_ranges >= 32 else 0)
